@@ -11,7 +11,7 @@ echo "== demo WITH change (expect FAIL)"; build
 PYTHONPATH=$wt/target/pyext_confirm python3 oxmpl-py/tests/seeded_demo.py > $out/demo_with_full.txt 2>&1; echo "exit=$?" > $out/demo_with.txt; tail -2 $out/demo_with_full.txt >> $out/demo_with.txt; cat $out/demo_with.txt
 echo "== existing suite WITH change"
 cargo test --workspace --no-fail-fast --offline 2>&1 | grep -E "^test result|FAILED|failed" > $out/suite_with.txt
-grep -E '^test .* FAILED' $out/suite_with.txt | grep -v prm_finds_path_in_so3ss && echo '!!! SUITE-BROKEN: a test other than the known load-dependent prm_so3ss fails with this change — re-run it before keeping the seed'
+grep -E '^test [A-Za-z_0-9:]+ \.\.\. FAILED' $out/suite_with.txt | grep -v prm_finds_path_in_so3ss && echo '!!! SUITE-BROKEN: a test other than the known load-dependent prm_so3ss fails with this change — re-run it before keeping the seed'
 echo "ok-lines: $(grep -c 'test result: ok' $out/suite_with.txt)  failed-lines: $(grep -vc 'test result: ok' $out/suite_with.txt)"
 echo "== demo WITHOUT change (expect pass)"
 git apply -R $out/patch.diff; build  # (not git stash: the stash is shared between worktrees)
